@@ -30,6 +30,7 @@ RULE = (
     "seeded cases over scan 2..7 x 2..7, detector 4..20 x 4..20, input dtype, detector mask kind, CoM surface "
     "(random / exact plane / exact constant), fit function, entry point (preprocess / direct), plus direct fit cases "
     "(exact float64 planes, explicit probe positions), integer-origin shift cases (3 interpolation modes, all batch sizes) and random "
+    "fit_far cases (probe positions that are a scan grid translated far from zero / scaled / anisotropic / rotated / non-uniformly spaced, origins far from zero compared to their extent; plane and constant fits of both the origin model and fit_origin) and random "
     "histories of 4..10 public calls on ONE model object (calculate/fit/estimate_detector_rotation/shift/forward; preprocess/forward/reset/reads) "
     "audited after every call against snapshots, the float64 oracle and a fresh twin; "
     "non-trivial = non-square detector and mean |CoM_row - CoM_col| > 0.5 px (com), >= 3 calls of which >= 2 beyond the first measurement (history), non-square scan with distinct non-zero "
@@ -45,6 +46,7 @@ ASSUMPTIONS = [
     "the float32 CoM bound scales with the detector size beyond 20 px (1e-3 px * max(H, W) / 20; measured 4.6e-5 px on detectors up to 128 px)",
     "fit_large cases: exact planes / constants over 6e4..5e5 probe positions (1x1 detector, default grid or explicit positions with 0.2..3 A steps), total descan <= 8 px; float32 PCA bound 5e-2 px (measured floor 2.5e-4 on 40x2600), fit_origin in float64 1e-6 px",
     "cross-instance: a fresh model created after a history (incl. shifts / forward() to non-default targets on another instance with the same detector shape) must reproduce the fresh model created before it",
+    "fit_far cases: explicit probe positions = scan grid (2..9 x 2..9), optionally irregularly spaced (steps 0.3..1.7 + jitter), scaled by 0.25..64 per axis (axis ratio <= 4), rotated, and translated by 30..3e5 position units per axis; origins 0..20 px or 20..4000 px from zero; total descan over the scan <= 8 px, <= 2 px per position unit and <= 1e4 * extent / translation. Singular-value ratio of the centred positions >= 0.25 (a float32 PCA loses eps * ratio^-2 on anisotropic clouds: measured factor 31 at ratio 0.1). Bound = K_FAR * eps32 * (max_k |P_k| |slope_k| + max |z|): the rounding of ONE float32 evaluation of the plane at those coordinates, which any backward-stable float32 fit attains up to a small factor (measured worst factor on the unchanged tree 8.3 over 9000 cases, K_FAR = 64; a one-pass covariance is off by a factor |translation| / extent, median 800). fit_origin works in float64 on scan indices: same bound with eps64 and K_FAR64 = 1e4 (measured worst factor 233, parabola), float32-rounded input judged at 32 x the float32 rounding of the data (measured 3.4)",
     "explicit probe positions for the PCA plane fit are non-collinear with slopes |a| <= 2 px per position unit",
 ]
 BUDGET = {"quick": {"soft_s": 300}, "thorough": {"soft_s": 1200}}
@@ -56,6 +58,7 @@ REQUIRED_COUNTERS = [
     "eval:global_state_dependence",
     "eval:shift_near_integer_is_roll",
     "eval:fit_exact_surface_large_scan",
+    "eval:fit_exact_surface_far_positions",
     "eval:com_vs_oracle_float64",
     "eval:com_vs_oracle",
     "eval:vectorized_vs_looped",
@@ -76,6 +79,10 @@ TOL_STATE = 1e-5  # px / relative: an attribute re-read (or recomputed by the sa
 TOL_COM64 = 1e-9  # px, dataset model when the run-time configuration asks for float64 (measured floor on the unchanged tree: 0 - same float64 arithmetic; a float32 detour is >= 5e-8)
 TOL_FIT64CFG = 1e-8  # px, fits of exactly planar float64 centres under that configuration (measured floor: 2e-13)
 TOL_FIT_LARGE = 5e-2  # px, float32 PCA plane over 1e5..4e5 probe positions (measured floor 2.5e-4 on a 40x2600 scan; a lost offset is several px)
+K_FAR = 64.0  # units of eps32 * (max |position * slope| + max |origin|): far / scaled / irregular probe positions (measured worst factor 8.5)
+K_FAR64 = 1e4  # same in units of eps64 for fit_origin (float64 least squares)
+K_FAR32IN = 32.0  # fit_origin handed the float32 image of an exact surface: units of eps32 * max |origin| (measured worst factor 3.4, a float32 mean of equal values)
+FAR_FORMS = ["translated", "translated", "scaled_translated", "nonuniform_translated", "rotated_scaled_translated", "nonuniform_rotated_scaled_translated", "scaled", "nonuniform"]
 TOL_ROLL = 5e-4  # relative to max|pattern| (float32 grid un-normalisation in grid_sample; measured floor 9e-7; an off-by-one roll is O(1))
 
 DTYPES = ["float32", "float32", "float64", "uint16", "int32"]
@@ -153,6 +160,10 @@ def plan(tier, seed):
     for k in range(n_large):
         scan = large[k] if k < len(large) else [int(rng.integers(200, 700)), int(rng.integers(200, 700))]
         specs.append({"kind": "fit_large", "scan": scan, "positions": ["grid", "explicit"][k % 2 if k >= len(large) else 0]})
+    # probe positions / origins far from zero compared to their extent, scaled, rotated, irregular
+    n_far = 320 if tier == "quick" else 16000
+    for k in range(n_far):
+        specs.append({"kind": "fit_far", "form": FAR_FORMS[k % len(FAR_FORMS)], "surface": ["plane", "plane", "constant"][int(rng.integers(3))], "zfar": bool(rng.random() < 0.4), "container": ["d3", "d4"][int(rng.integers(2))]})
     # interleave the kinds: when the soft time budget expires on a loaded machine every kind has still been run
     order = rng.permutation(len(specs))
     return [specs[i] for i in order]
@@ -980,12 +991,127 @@ def _run_fit_large(spec, idx, ctx):
     ctx.observe(scan=[R, C], n=n, span=span, off=off, positions=spec["positions"])
 
 
+def _far_positions(rng, form):
+    """Scan positions as a user hands them over in stage / field-of-view coordinates: a raster (optionally irregularly spaced),
+    scaled per axis, rotated, translated far from zero.  Returned as float32 (what the library works with)."""
+    for attempt in range(50):
+        nr, nc = int(rng.integers(2, 10)), int(rng.integers(2, 10))
+        i, j = np.meshgrid(np.arange(nr), np.arange(nc), indexing="ij")
+        G = np.stack([i.ravel(), j.ravel()], 1).astype(np.float64)
+        if "nonuniform" in form:
+            ax0 = np.concatenate([[0.0], np.cumsum(rng.uniform(0.3, 1.7, nr - 1))])
+            ax1 = np.concatenate([[0.0], np.cumsum(rng.uniform(0.3, 1.7, nc - 1))])
+            G = np.stack([ax0[i].ravel(), ax1[j].ravel()], 1) + rng.uniform(-0.1, 0.1, size=(nr * nc, 2))
+        s = np.ones(2)
+        if "scaled" in form:
+            s[:] = 2.0 ** rng.uniform(-2, 6)
+            if rng.random() < 0.5:
+                s[1] = s[0] * 2.0 ** rng.uniform(-2, 2)
+        P = G * s
+        if "rotated" in form:
+            th = rng.uniform(0, 2 * np.pi)
+            P = P @ np.array([[np.cos(th), -np.sin(th)], [np.sin(th), np.cos(th)]]).T
+        T = np.zeros(2)
+        if "translated" in form:
+            mag = 10.0 ** rng.uniform(1.5, 5.5, size=2)
+            if rng.random() < 0.3:
+                mag[int(rng.integers(2))] = 0.0
+            T = rng.choice([-1.0, 1.0], size=2) * mag
+            if rng.random() < 0.5:
+                T = np.round(T)
+        P32 = (P + T).astype(np.float32)
+        q = P32.astype(np.float64) - P32.astype(np.float64).mean(0)
+        sv = np.linalg.svd(q, compute_uv=False)
+        if sv[0] > 0 and sv[-1] / sv[0] >= 0.25:
+            return nr, nc, P32
+    raise AssertionError("no well-conditioned position set drawn")
+
+
+def _run_fit_far(spec, idx, ctx):
+    """Exact planes / constants over probe positions (and origins) that are far from zero compared to their extent."""
+    torch = ctx.state["torch"]
+    pu = ctx.state["pu"]
+    rng = ctx.rng(idx)
+    form = spec["form"]
+    nr, nc, P32 = _far_positions(rng, form)
+    n = nr * nc
+    P = P32.astype(np.float64)
+    Pc = P.mean(0)
+    ext = np.maximum((P - Pc).max(0) - (P - Pc).min(0), 1e-9)
+    far = float(np.max(np.abs(P)) / np.max(ext))
+    zoff = 10.0 ** rng.uniform(1.3, 3.6, size=2) if spec["zfar"] else rng.uniform(0, 20, size=2)
+    eps32, eps64 = float(np.finfo(np.float32).eps), float(np.finfo(np.float64).eps)
+
+    def draw_coef(extent, reach):
+        # total descan over the scan: a few px, less when the coordinates are so large that one float32 evaluation of the plane is coarse
+        if spec["surface"] != "plane":
+            return np.zeros((2, 2))
+        cap = np.minimum(np.minimum(8.0, 2.0 * extent), 1e4 * extent / np.maximum(reach, 1e-9))  # (slopes <= 2 px per position unit, as for every explicit-position case)
+        span = rng.uniform(-1, 1, size=(2, 2))
+        span[np.abs(span) < 0.06] = 0.125
+        return span * cap[None, :] / extent[None, :]
+
+    # ---- origin model, explicit positions ---------------------------------------------------------------------
+    coef = draw_coef(ext, np.max(np.abs(P), 0))
+    z = np.stack([(P - Pc) @ coef[0] + zoff[0], (P - Pc) @ coef[1] + zoff[1]], 1)
+    z32 = z.astype(np.float32)
+    if spec["container"] == "d4":
+        d = ctx.state["D4"].from_array(np.ones((nr, nc, 2, 3), dtype=np.float32))
+    else:
+        d = ctx.state["D3"].from_array(np.ones((n, 2, 3), dtype=np.float32))
+    m = ctx.state["COM"].from_dataset(d)
+    unit = eps32 * max(float(np.max(np.abs(P) @ np.abs(coef[k])) + np.max(np.abs(z[:, k]))) for k in range(2))
+    worst = 0.0
+    for fm in ["plane"] + (["constant"] if spec["surface"] == "constant" else []):
+        m.origin_measured = torch.tensor(z32.copy())
+        how = int(rng.integers(3))
+        pos = torch.tensor(P32.copy()) if how == 0 else P32.copy() if how == 1 else P32.astype(np.float64)
+        m.fit_origin_background(probe_positions=pos, fit_method=fm)
+        of = m.origin_fitted.detach().numpy().astype(np.float64)
+        ctx.check(of.shape == (n, 2), "fit_shape", "origin_fitted shape %s" % (of.shape,), impl="origin_model", fit=fm)
+        if of.shape != (n, 2):
+            continue
+        err = _maxabs(of - z32.astype(np.float64))
+        worst = max(worst, err / unit) if err == err else float("inf")
+        ctx.close(err / unit, K_FAR, "fit_exact_surface_far_positions", lambda: "origin_fitted differs from the exact %s handed to origin_measured by %.3e px = residual x the float32 rounding (%.1e px) of one evaluation of that surface (fit_method=%s, positions %s, |position|/extent = %.0f, origins ~ %.0f px)" % (spec["surface"], err, unit, fm, form, far, float(np.max(np.abs(z)))), impl="origin_model", fit=fm, surface=spec["surface"], form=form, zfar=spec["zfar"])
+    # ---- dataset model's fit (fit_origin works on the scan indices): origins far from zero compared to their extent
+    i, j = np.meshgrid(np.arange(nr), np.arange(nc), indexing="ij")
+    cidx = draw_coef(np.array([max(nr - 1, 1), max(nc - 1, 1)], dtype=np.float64), np.array([nr - 1.0, nc - 1.0]))
+    far_off = rng.choice([-1.0, 1.0], size=2) * 10.0 ** rng.uniform(1.3, 5.5, size=2) if spec["zfar"] else zoff
+    pr = cidx[0, 0] * i + cidx[0, 1] * j + far_off[0]
+    pc = cidx[1, 0] * i + cidx[1, 1] * j + far_off[1]
+    surf = np.stack([pr, pc])
+    unit64 = float(max(np.max(np.abs(cidx[k, 0]) * i + np.abs(cidx[k, 1]) * j) + np.max(np.abs(surf[k])) for k in range(2)))
+    fits = ["plane", "constant" if spec["surface"] == "constant" else None, "parabola" if min(nr, nc) >= 3 else None]
+    worst64 = 0.0
+    for ff in [f for f in fits if f]:
+        for dt in ("float64", "float32"):
+            data = (pr.astype(dt), pc.astype(dt))
+            held = np.stack([data[0].astype(np.float64), data[1].astype(np.float64)])
+            fr, fc, rr, rc = pu.fit_origin(data=(data[0].copy(), data[1].copy()), fit_function=ff, mask=np.ones((nr, nc), dtype=bool))
+            got = np.stack([np.asarray(fr, dtype=np.float64), np.asarray(fc, dtype=np.float64)])
+            ctx.check(got.shape == surf.shape, "fit_shape", "fit_origin returned shape %s" % (got.shape,), impl="fit_origin", fit=ff)
+            if got.shape != surf.shape:
+                continue
+            err = _maxabs(got - held)
+            if dt == "float64":
+                worst64 = max(worst64, err / (eps64 * unit64)) if err == err else float("inf")
+                ctx.close(err / (eps64 * unit64), K_FAR64, "fit_exact_surface_far_positions", lambda: "fit_origin(%s) of an exact %s whose values are far from zero (%.3g) differs from it by %.3e px" % (ff, spec["surface"], float(np.max(np.abs(surf))), err), impl="fit_origin", fit=ff, surface=spec["surface"], form="origins_far" if spec["zfar"] else "origins_near", zfar=spec["zfar"], dtype=dt)
+            else:
+                # the float32 image of an exact plane is a plane up to eps32 |z| / 2 per point; a constant stays a constant
+                ctx.close(err / (eps32 * unit64), K_FAR32IN, "fit_exact_surface_far_positions", lambda: "fit_origin(%s) of the float32 image of an exact %s (values ~ %.3g) differs from it by %.3e px" % (ff, spec["surface"], float(np.max(np.abs(surf))), err), impl="fit_origin", fit=ff, surface=spec["surface"], form="origins_far" if spec["zfar"] else "origins_near", zfar=spec["zfar"], dtype=dt)
+    ctx.nontrivial(("fit_far", form, spec["surface"], spec["zfar"], spec["container"], nr, nc), (far >= 30 or spec["zfar"] or "scaled" in form or "nonuniform" in form) and n >= 4)
+    ctx.observe(form=form, scan=[nr, nc], position_over_extent=far, max_abs_origin=float(np.max(np.abs(z))), worst_factor_float32=worst, worst_factor_float64=worst64, rounding_unit_px=unit)
+
+
 def run_case(spec, idx, ctx):
     with np.errstate(all="ignore"):
         if spec["kind"] == "workflow_integer":
             _run_workflow_integer(spec, idx, ctx)
         elif spec["kind"] == "fit_large":
             _run_fit_large(spec, idx, ctx)
+        elif spec["kind"] == "fit_far":
+            _run_fit_far(spec, idx, ctx)
         elif spec["kind"] == "global_state":
             _run_global(spec, idx, ctx)
         elif spec["kind"] == "history":
